@@ -21,6 +21,7 @@ schedule); a rejected batch leaves the state unchanged (bbolt rollback + scrappe
 change stream are those of the point store (C01: ids of live points are unique, `L` has no duplicates).
 -/
 import SemaModel.C10.Lemmas
+import SemaModel.Generated.FactsC10
 namespace Sema.C10
 open Sema.C03
 
@@ -72,6 +73,19 @@ theorem C10_history (cfg : Cfg) (hR : 1 ≤ cfg.degreeBound) (steps : List (Step
   C10_history_from cfg hR steps Graph.init [] (C10_init _)
 
 end
+
+/-! ### T2: syntactic facts of the source, regenerated on every check (tools/facts_c10) -/
+
+/-- the model's entry node id is `vamana.STARTID` -/
+example : Sema.Gen.FactsC10.startId = entry := by decide
+
+/-- `applyV` follows the phase order of `insertUpdateDelete` … -/
+example : Sema.Gen.FactsC10.phases =
+    ["classify", "insertWorkers", "waitForInserts", "removeInboundEdges", "deleteVectors", "deleteNodes",
+     "reinsertUpdated", "fit", "flush"] := by decide
+
+/-- … and `removeInbound` that of `removeInboundEdges` -/
+example : Sema.Gen.FactsC10.removeInboundPhases = ["edgeScan", "pruneDeleteNeighbour", "rescueOntoEntry"] := by decide
 
 /-! ### non-vacuity and the defect of the unrepaired bookkeeping -/
 
